@@ -52,7 +52,7 @@ func (g *Gen) tplCoroutines() []L.Stmt {
 		body = append(body, emit(str(cn+" starts"), &L.VarargExpr{}), local1("loc", num(float64(c*100))))
 		steps := 1 + g.n(4, "costeps")
 		for s := 0; s < steps; s++ {
-			switch g.n(9, "costep") {
+			switch g.n(11, "costep") {
 			case 0, 1:
 				body = append(body, emit(str(cn+" resumed with"), co("yield", g.payload("y")...)))
 			case 2:
@@ -84,6 +84,8 @@ func (g *Gen) tplCoroutines() []L.Stmt {
 					body = append(body, ifs(bin("==", name("loc"), name("loc")), blk(callStmt(call(name("error"), tbl(kv(str("from"), str(cn)))))), nil))
 					g.class("co:error_in_body")
 				}
+			case 8, 9:
+				body = append(body, g.innerCoroutine(cn, 1+g.n(3, "innerdepth"))...)
 			default:
 				// a closure over a coroutine local, handed out through yield
 				body = append(body, emit(str(cn+" after closure"), co("yield", fn(nil, false, blk(assign1(name("loc"), bin("+", name("loc"), num(1))), ret(name("loc")))))))
@@ -114,6 +116,53 @@ func (g *Gen) tplCoroutines() []L.Stmt {
 	// closures handed out by coroutines keep working whatever state the coroutine is in (values arrive through emit only;
 	// calling them is done by a fixed epilogue when one was yielded: the driver keeps the last function it received)
 	g.class("co:ncoroutines" + strconv.Itoa(nco))
+	return []L.Stmt{&L.DoStmt{Body: blk(out...)}}
+}
+
+// innerCoroutine: a coroutine created by a coroutine (depth levels deep).  The inner one yields some values, then
+// returns, fails or is abandoned while suspended; its creator goes on afterwards and must be unaffected.
+func (g *Gen) innerCoroutine(cn string, depth int) []L.Stmt {
+	g.class("co:created_inside_coroutine")
+	g.class("co:creation_depth" + strconv.Itoa(depth+1))
+	tag := cn + " inner" + strconv.Itoa(depth)
+	var body []L.Stmt
+	body = append(body, emit(str(tag+" starts"), &L.VarargExpr{}))
+	ny := g.n(3, "inneryields")
+	for i := 0; i < ny; i++ {
+		body = append(body, emit(str(tag+" resumed with"), co("yield", g.payload("iy")...)))
+	}
+	if depth > 1 {
+		body = append(body, g.innerCoroutine(cn, depth-1)...)
+	}
+	end := g.n(4, "innerend")
+	switch end {
+	case 0:
+		body = append(body, ifs(bin("==", name("loc"), name("loc")), blk(callStmt(call(name("error"), str(tag+" fails")))), nil))
+		g.class("co:inner_fails")
+	default:
+		body = append(body, ret(append([]L.Expr{str(tag + " returns")}, g.payload("ir")...)...))
+	}
+	fe := fn(nil, true, blk(body...))
+	var out []L.Stmt
+	// resumes: fewer than, exactly, or more than the inner coroutine needs to finish
+	nr := g.n(ny+3, "innerresumes")
+	if nr <= ny {
+		g.class("co:inner_abandoned_suspended")
+	} else {
+		g.class("co:inner_finishes_before_creator_continues")
+	}
+	if g.n(3, "innerwrap") == 0 {
+		out = append(out, local1("iw", co("wrap", fe)))
+		for i := 0; i < nr; i++ {
+			out = append(out, emit(str(tag+" wrap call"), call(name("pcall"), append([]L.Expr{name("iw")}, g.payload("ip")...)...)))
+		}
+	} else {
+		out = append(out, local1("ic", co("create", fe)))
+		for i := 0; i < nr; i++ {
+			out = append(out, emit(str(tag+" resume"), co("resume", append([]L.Expr{name("ic")}, g.payload("ip")...)...), co("status", name("ic"))))
+		}
+	}
+	out = append(out, emit(str(cn+" goes on after inner"), name("loc")))
 	return []L.Stmt{&L.DoStmt{Body: blk(out...)}}
 }
 
